@@ -27,6 +27,7 @@ HOST_EXACT = {"os.strerror", "os.name", "os.uname", "os.sep", "os.linesep", "sys
 PURE = {"socket.inet_ntoa", "socket.inet_ntop", "socket.inet_aton", "socket.inet_pton", "socket.ntohs", "socket.ntohl",
         "socket.htons", "socket.htonl", "stat.S_IMODE", "stat.S_IFMT"}
 
+MODULE_FLOOR = 10
 SCOPE_MODULES = ("trace_handlers.", "traces_parser", "callstacks_parser", "pykdebugparser", "os_log_event",
                  "kd_buf_parser", "kevent", "trace_codes", "__main__")
 
@@ -188,6 +189,7 @@ WITNESS = {"errno.errorcode": "errno 35 renders EDEADLOCK on Linux, EAGAIN on Da
 
 def check(repo: Repo, run: Run) -> None:
     n_units = 0
+    n_mods = 0
     total = 0
     reach, graph = decoder_reach(repo)
     run.floor("R1", "registry decoders whose reachable code is known", len(reach), 400)
@@ -199,6 +201,7 @@ def check(repo: Repo, run: Run) -> None:
         short = mod.name[len("pykdebugparser."):] if mod.name.startswith("pykdebugparser.") else mod.name
         if not short.startswith(SCOPE_MODULES):
             continue
+        n_mods += 1
         n_units += len(mod.functions) + sum(len(c.methods) for c in mod.classes.values())
         # (instance, table) -> where.  An instance is a decoder (registry key) whose output can depend on the table, or
         # "@<function>" for code that no decoder reaches (the facade, the dispatcher, the command line).
@@ -229,7 +232,8 @@ def check(repo: Repo, run: Run) -> None:
         run.ob("R1", mod.name, "<module>", "scanned", True, facts={"use_sites": n_sites, "dependent_outputs": len(uses)},
                nontrivial=False)
     run.analysed.update({"functions_scanned": n_units, "host_dependent_outputs": total, "registry_decoders": len(reach)})
-    run.floor("R1", "functions and methods scanned", n_units, 850)
+    run.analysed["modules_scanned"] = n_mods
+    run.floor("R1", "modules scanned", n_mods, MODULE_FLOOR)
     _canary(repo, run)
 
 
